@@ -62,7 +62,7 @@ func unionOpt(u int, vals []any) participle.Option {
 // Options returns the participle options that configure the grammar (lexer, elision, lookahead,
 // case-insensitivity, unions) for the given production types.
 func (g *Grammar) Options(types []reflect.Type) []participle.Option {
-	opts := []participle.Option{participle.Lexer(g.Prof().Def), participle.UseLookahead(g.Lookahead)}
+	opts := []participle.Option{participle.Lexer(g.Prof().Def), participle.UseLookahead(g.Lookahead), participle.ParseTypeWith(ParsePI)}
 	if len(g.Elide) > 0 {
 		opts = append(opts, participle.Elide(g.Elide...))
 	}
